@@ -6,6 +6,7 @@ RPC handlers and background tasks), regenerated on every run.  That each modelle
 section is validated by the concurrent driver against the real server (partial).
 -/
 import Chokan.Model.Runtime
+import Chokan.Model.Server
 
 namespace Chokan.Props.C14
 open Chokan.Runtime Chokan.Gen.Server
@@ -44,5 +45,81 @@ theorem C14_no_deadlock_here (k : Nat) (hk : 0 < k) (holds waits : Nat → Lock)
   intro i hi
   have := List.all_eq_true.1 C14_lock_order _ (hedge i hi)
   simpa using this
+
+/-! ## sequentially explainable states: histories of atomic steps (Model/Server `Op`, `stepOp`) -/
+
+open Chokan.Server Chokan.Kkc Chokan.Dic in
+/-- **A registered entry is never half-visible.** In every history the running dictionary changes only in
+updater steps, and an updater step adds *all* conjugated forms of one entry at once: no state of any
+history — hence no conversion answer — sees some of an entry's forms without the others. -/
+theorem C14_dict_changes_by_whole_entries (c : Cfg) (s : State) (op : Op) :
+    (stepOp c s op).dict = s.dict ∨
+    ∃ e ws, s.pending.head? = some e ∧ entryToWords c.conj c.adj c.adjv e = some ws ∧
+      (stepOp c s op).dict = ws.foldl (addStdWord c.alpha) s.dict := by
+  cases op with
+  | convert ctx input =>
+    left
+    simp only [stepOp]
+    cases hc : convert c s ctx input with
+    | none => rfl
+    | some r =>
+      obtain ⟨s', sid, cs⟩ := r
+      unfold convert at hc
+      simp only [Option.map_eq_some_iff, Prod.mk.injEq] at hc
+      obtain ⟨_, _, rfl, _, _⟩ := hc
+      rfl
+  | confirm sid cid now =>
+    left
+    simp only [stepOp]
+    unfold confirm popSession
+    cases hs : s.sessions.find? (·.sid == sid) with
+    | none => rfl
+    | some sess' =>
+      simp only
+      cases hcb : (cid.bind fun i => sess'.cands[i]?) with
+      | none => rfl
+      | some cand =>
+        simp only
+        cases independentWord cand.chain <;> cases withAffix cand.chain <;> rfl
+  | register k r w =>
+    left
+    simp only [stepOp]
+    cases hr : register c s k r w with
+    | none => rfl
+    | some s' =>
+      unfold register at hr
+      simp only [Option.map_eq_some_iff] at hr
+      obtain ⟨e, _, rfl⟩ := hr
+      rfl
+  | apply =>
+    simp only [stepOp]
+    cases hp : s.pending with
+    | nil => left; simp [applyEntry, hp]
+    | cons e rest =>
+      cases hm : mergeEntry c s.dict e with
+      | none => left; simp [applyEntry, hp, hm]
+      | some d =>
+        right
+        unfold mergeEntry at hm
+        simp only [Option.map_eq_some_iff] at hm
+        obtain ⟨ws, hws, rfl⟩ := hm
+        refine ⟨e, ws, by simp, hws, ?_⟩
+        simp [applyEntry, hp, mergeEntry, hws]
+  | save =>
+    left
+    simp only [stepOp, save]
+    split <;> rfl
+
+open Chokan.Server Chokan.Kkc Chokan.Dic in
+/-- **Every conversion answer is the sequential answer for the state of its own step**: it is a function
+of the dictionary and the learned counts of the state reached by the steps before it (every earlier
+update, no later one), whatever sessions, queued entries or saved files exist. -/
+theorem C14_answer_is_sequential (c : Cfg) (s0 : State) (before : List Op) (ctx : Ctx) (input : Str) :
+    (convert c (runOps c s0 before) ctx input).map (·.2.2) =
+      getCandidates c.tables input (runOps c s0 before).dict ctx (toKkcFreq (runOps c s0 before).freq)
+        c.nCandidates c.fuel := by
+  unfold convert
+  cases getCandidates c.tables input (runOps c s0 before).dict ctx (toKkcFreq (runOps c s0 before).freq)
+    c.nCandidates c.fuel <;> rfl
 
 end Chokan.Props.C14
